@@ -53,7 +53,7 @@ Proof.
   assert (NEWO : forall k, d = DJob k -> dep_status s d = DOK -> st (jobs s k) = DONE).
   { intros k -> X. simpl in X. destruct (st (jobs s k)); try discriminate; auto. }
   assert (Ind : In d (deps W j)) by (eapply nth_error_In; eauto).
-  assert (LI : linv (deps W j) (j_marker (spec W j)) (j_code (spec W j)) r').
+  assert (LI : linv (deps W j) (j_marker (spec W j)) (j_code (spec W j)) (adopted W j) r').
   { eapply linv_async; eauto.
     - intros IS E'. destruct (Eerr E') as [X|X]; auto.
       destruct (NEWF X) as (k & -> & K). rewrite (I_RD I j k) in K; auto. discriminate.
@@ -91,7 +91,7 @@ Proof.
             nth_error (deps W j) i' = Some (DJob k) -> st (jobs s k) = DONE).
   { intros i' k _ X Y. eapply CO'; eauto. }
   assert (H8 : forall i', started (pc r') = true -> nth_error (cur r') i' = Some DFAIL ->
-            exists k, nth_error (deps W j) i' = Some (DJob k) /\ st (jobs s k) = ERROR).
+            exists k, nth_error (deps W j) i' = Some (DJob k) /\ (st (jobs s k) = ERROR \/ adopted W k <> None)).
   { intros i' _ X. rewrite Cc in X. rewrite nth_error_replace in X. destruct (Nat.eqb i i') eqn:Ei.
     + apply Nat.eqb_eq in Ei. subst i'. rewrite Hold in X. inversion X as [X'].
       destruct (NEWF X') as (k & -> & K). exists k. auto.
@@ -107,7 +107,7 @@ Proof.
         assert (Z0 : count_nok (cur r') = 0%nat) by (apply Nat2Z.inj; exact U0).
         assert (y = DOK) by (apply (@count_nok_zero (cur r') Z0 i' y Y2)). subst y. exact (CO' i' k Y2 Y1).
     + apply (I_RD I j k); auto. right. fold r. destruct PC as [X|(_&X)]; [rewrite <- X; exact IS|]. rewrite X in IS; discriminate. }
-  assert (H10 : fdep r' = true -> exists k, In (DJob k) (deps W j) /\ st (jobs s k) = ERROR).
+  assert (H10 : fdep r' = true -> exists k, In (DJob k) (deps W j) /\ (st (jobs s k) = ERROR \/ adopted W k <> None)).
   { intros FD. destruct Af2 as [X|(NF & X)].
     + apply (I_FD I j). fold r. congruence.
     + destruct (Eerr X) as [Y|Y]; [rewrite Y in NF; discriminate|].
@@ -126,7 +126,7 @@ Proof.
   assert (RET : forall r0, pc r = PReturned r0 -> pc r' = PReturned r0).
   { intros r0 X. destruct PC as [Y|(Y&_)]; congruence. }
   assert (LCH : launches r' = launches r \/ (true = false /\ launches r' = Datatypes.S (launches r) /\ pc r = PWoken ALockIn)) by (left; exact Al).
-  exact (@inv_update true W s s' j r' WF I Jn EJ LI H1 H2 H3 H4 RET LCH H5 H6 H7 H8 H9 H10 H11 H12 H13 H14).
+  exact (@inv_update true W s s' j r' WF I Jn EJ LI H1 (fun HE => or_introl (H2 HE)) H3 H4 RET LCH H5 H6 H7 H8 H9 H10 H11 H12 H13 H14).
 Qed.
 
 (* ------------------------------------------------------------------ steps that leave the jobs unchanged *)
@@ -170,9 +170,9 @@ Qed.
 Lemma inv_update_own : forall strict W s s' j r',
   wf W = true -> Inv W s -> started (pc (jobs s j)) = true ->
   jobs s' = upd (jobs s) j r' ->
-  linv (deps W j) (j_marker (spec W j)) (j_code (spec W j)) r' ->
+  linv (deps W j) (j_marker (spec W j)) (j_code (spec W j)) (adopted W j) r' ->
   cur r' = cur (jobs s j) -> fdep r' = fdep (jobs s j) ->
-  (st (jobs s j) = DONE -> st r' = DONE) -> (st (jobs s j) = ERROR -> st r' = ERROR) ->
+  (st (jobs s j) = DONE -> st r' = DONE) -> (st (jobs s j) = ERROR -> st r' = ERROR \/ is_adopt (pc (jobs s j)) = true) ->
   started (pc r') = true ->
   (past_loop (pc (jobs s j)) = true -> past_loop (pc r') = true) ->
   (forall r0, pc (jobs s j) = PReturned r0 -> pc r' = PReturned r0) ->
@@ -209,7 +209,7 @@ Proof.
   set (r' := w_pc r (PWoken a)). set (s' := enqueue (setjob s j r') (CStep j)).
   assert (S : started (pc r) = true) by (rewrite P; auto).
   assert (EJ : jobs s' = upd (jobs s) j r') by reflexivity.
-  assert (L : linv (deps W j) (j_marker (spec W j)) (j_code (spec W j)) r') by (apply linv_deliver; auto; apply (I_loc I j)).
+  assert (L : linv (deps W j) (j_marker (spec W j)) (j_code (spec W j)) (adopted W j) r') by (apply linv_deliver; auto; apply (I_loc I j)).
   assert (EC : cur r' = cur r) by reflexivity.
   assert (EF : fdep r' = fdep r) by reflexivity.
   assert (SD : st r = DONE -> st r' = DONE) by auto.
@@ -228,7 +228,7 @@ Proof.
   { intros c Hc. apply in_app_or in Hc. destruct Hc as [X|[<-|[]]]; auto. right. simpl. auto. }
   assert (RET : forall r0, pc r = PReturned r0 -> pc r' = PReturned r0) by (intros r0 X; rewrite P in X; discriminate).
   assert (LCH : launches r' = launches r \/ (true = false /\ launches r' = Datatypes.S (launches r) /\ pc r = PWoken ALockIn)) by (left; reflexivity).
-  exact (@inv_update_own true W s s' j r' WF I S EJ L EC EF SD SE SS SP RET LCH RD LD CNT FL Q).
+  exact (@inv_update_own true W s s' j r' WF I S EJ L EC EF SD (fun HE => or_introl (SE HE)) SS SP RET LCH RD LD CNT FL Q).
 Qed.
 
 Lemma inv_lockoutrun : forall W s j, wf W = true -> Inv W s -> pc (jobs s j) = PWoken ALockOutRun ->
@@ -238,7 +238,7 @@ Proof.
   set (r' := w_pc r (PExt AProc)). set (s' := setjob s j r').
   assert (S : started (pc r) = true) by (rewrite P; auto).
   assert (EJ : jobs s' = upd (jobs s) j r') by reflexivity.
-  assert (L : linv (deps W j) (j_marker (spec W j)) (j_code (spec W j)) r') by (apply linv_lockoutrun; auto; apply (I_loc I j)).
+  assert (L : linv (deps W j) (j_marker (spec W j)) (j_code (spec W j)) (adopted W j) r') by (apply linv_lockoutrun; auto; apply (I_loc I j)).
   assert (EC : cur r' = cur r) by reflexivity.
   assert (EF : fdep r' = fdep r) by reflexivity.
   assert (SD : st r = DONE -> st r' = DONE) by auto.
@@ -256,34 +256,35 @@ Proof.
   assert (Q : forall c, In c (queue s') -> In c (queue s) \/ cb_ok s' c) by (intros c Hc; auto).
   assert (RET : forall r0, pc r = PReturned r0 -> pc r' = PReturned r0) by (intros r0 X; rewrite P in X; discriminate).
   assert (LCH : launches r' = launches r \/ (true = false /\ launches r' = Datatypes.S (launches r) /\ pc r = PWoken ALockIn)) by (left; reflexivity).
-  exact (@inv_update_own true W s s' j r' WF I S EJ L EC EF SD SE SS SP RET LCH RD LD CNT FL Q).
+  exact (@inv_update_own true W s s' j r' WF I S EJ L EC EF SD (fun HE => or_introl (SE HE)) SS SP RET LCH RD LD CNT FL Q).
 Qed.
 
 (* facts about a job whose coroutine is outside aio_start and before the end of its loop *)
-Lemma idle_facts : forall ds mk code r, linv ds mk code r -> started (pc r) = true ->
-  in_start (pc r) = false -> past_loop (pc r) = false ->
-  held r = [] /\ launches r = 0%nat /\ mk = false.
+Lemma idle_facts : forall ds mk code ad r, linv ds mk code ad r -> started (pc r) = true ->
+  in_start (pc r) = false -> past_loop (pc r) = false -> is_adopt (pc r) = false ->
+  held r = [] /\ launches r = 0%nat /\ mk = false /\ ad = None.
 Proof.
-  intros ds mk code r L S IS PL.
+  intros ds mk code ad r L S IS PL NA.
+  assert (ADN : ad = None) by (apply (ad_none L S); auto).
   assert (H : held r = []).
   { destruct (held r) eqn:E; auto. assert (X : held r <> []) by congruence.
     destruct (l_held L X) as [Y|[Y|[Y|Y]]]; try (rewrite Y in IS; discriminate).
-    destruct (pc r); simpl in *; try discriminate. destruct a; simpl in *; discriminate. destruct a; simpl in *; discriminate. }
+    destruct (pc r) as [| | | | |a|a|]; simpl in *; try discriminate; destruct a; simpl in *; discriminate. }
   assert (L0 : launches r = 0%nat).
   { pose proof (l_L1 L). destruct (launches r) as [|[|n]] eqn:E; auto; try lia.
     destruct (l_L2 L E) as (_ & [X|(X&_)]); [|congruence].
-    destruct (pc r); simpl in *; try discriminate. destruct a; simpl in *; discriminate. destruct a; simpl in *; discriminate. }
+    destruct (pc r) as [| | | | |a|a|]; simpl in *; try discriminate; destruct a; simpl in *; discriminate. }
   repeat split; auto.
-  destruct mk; auto. pose proof (l_mk L eq_refl S) as D. pose proof (l_D L D) as X. congruence.
+  destruct mk; auto. pose proof (l_mk L eq_refl ADN S) as D. pose proof (l_D L D) as X. congruence.
 Qed.
 
 (* committing the result of one of the loop functions *)
 Lemma inv_commit_loop : forall W s j r2 p,
   wf W = true -> Inv W s -> started (pc (jobs s j)) = true -> past_loop (pc (jobs s j)) = false ->
-  linv (deps W j) (j_marker (spec W j)) (j_code (spec W j)) (fst p) ->
+  linv (deps W j) (j_marker (spec W j)) (j_code (spec W j)) (adopted W j) (fst p) ->
   loop_shape r2 p ->
   cur r2 = cur (jobs s j) -> fdep r2 = fdep (jobs s j) -> launches r2 = launches (jobs s j) ->
-  (st (jobs s j) = DONE -> st r2 = DONE) -> (st (jobs s j) = ERROR -> st r2 = ERROR) ->
+  (st (jobs s j) = DONE -> st r2 = DONE) -> (st (jobs s j) = ERROR -> st r2 = ERROR \/ is_adopt (pc (jobs s j)) = true) ->
   (st r2 = READY -> st (jobs s j) = READY \/ in_start (pc (jobs s j)) = true) ->
   Inv W (commit s j p) /\ stab0 s (commit s j p).
 Proof.
@@ -293,7 +294,7 @@ Proof.
   assert (EC : cur r' = cur r) by congruence.
   assert (EF : fdep r' = fdep r) by congruence.
   assert (SD : st r = DONE -> st r' = DONE) by (intros; rewrite S_st; auto).
-  assert (SE : st r = ERROR -> st r' = ERROR) by (intros; rewrite S_st; auto).
+  assert (SE : st r = ERROR -> st r' = ERROR \/ is_adopt (pc r) = true) by (intros HE; rewrite S_st; apply SE2; auto).
   assert (SS : started (pc r') = true) by (destruct S_pc as [(X&_)|[(X&_)|(X&_)]]; rewrite X; auto).
   assert (SP : past_loop (pc r) = true -> past_loop (pc r') = true) by congruence.
   assert (RD : (st r' = READY \/ in_start (pc r') = true) -> (st r = READY \/ in_start (pc r) = true)).
@@ -326,9 +327,9 @@ Proof.
   intros W s j WF I P. set (r := jobs s j) in *.
   pose proof (I_loc I j) as L. unfold jl in L. fold r in L.
   assert (S : started (pc r) = true) by (rewrite P; auto).
-  destruct (@idle_facts _ _ _ r L S) as (H & L0 & MK); try (rewrite P; reflexivity).
-  assert (M : lmid (deps W j) (j_marker (spec W j)) (j_code (spec W j)) r).
-  { apply lmid_of_linv; auto; congruence. }
+  destruct (@idle_facts _ _ _ _ r L S) as (H & L0 & MK & ADN); try (rewrite P; reflexivity).
+  assert (M : lmid (deps W j) (j_marker (spec W j)) (j_code (spec W j)) (adopted W j) r).
+  { apply lmid_of_linv; auto; try congruence. rewrite P; reflexivity. }
   assert (D : st r = READY \/ finished (st r) = true \/ (st r = WAITING /\ uns r <> 0)).
   { destruct (l_WS L P) as [X|X]; auto. right; left. rewrite X; auto. }
   apply (@inv_commit_loop W s j r (after_ready_l r)); auto.
@@ -346,15 +347,18 @@ Qed.
 Lemma dep_status_ok : forall s k, dep_status s (DJob k) = DOK -> st (jobs s k) = DONE.
 Proof. intros s k X. simpl in X. destruct (st (jobs s k)); try discriminate; auto. Qed.
 
+Lemma adopted_some : forall W j, is_some_b (adopted W j) = is_some_b (j_adopt (spec W j)).
+Proof. intros. unfold adopted. destruct (j_adopt (spec W j)); reflexivity. Qed.
+
 Lemma inv_spawn : forall W s j, wf W = true -> Inv W s -> pc (jobs s j) = PSpawned ->
   Inv W (run_spawn W all_fixed s j) /\ stab0 s (run_spawn W all_fixed s j).
 Proof.
-  intros W s j WF I P. unfold run_spawn. simpl fx3.
+  intros W s j WF I P. unfold run_spawn. simpl fx3. rewrite <- adopted_some.
   set (r := jobs s j) in *. set (news := map (dep_status s) (deps W j)).
-  set (p := spawn_l true (j_marker (spec W j)) r news).
+  set (p := spawn_l true (j_marker (spec W j)) (is_some_b (adopted W j)) r news).
   pose proof (I_loc I j) as L. unfold jl in L. fold r in L.
   assert (Len : length news = length (deps W j)) by (apply map_length).
-  destruct (@spawn_l_ok (deps W j) (j_marker (spec W j)) (j_code (spec W j)) r news L P Len) as (LI & C & ST & SND & RDY & HD & LA & DN & IST & FDP & CT & _). fold p in LI, C, ST, SND, RDY, HD, LA, DN, IST, FDP, CT.
+  destruct (@spawn_l_ok (deps W j) (j_marker (spec W j)) (j_code (spec W j)) (adopted W j) r news L P Len) as (LI & C & ST & SND & RDY & HD & LA & DN & IST & FDP & CT & _). fold p in LI, C, ST, SND, RDY, HD, LA, DN, IST, FDP, CT.
   set (r' := fst p) in *. set (s' := commit s j p).
   assert (NS : started (pc r) = false) by (rewrite P; auto).
   destruct (l_un L NS) as (Ul & Uh & Us & Uf & Uc & Uu).
@@ -374,14 +378,14 @@ Proof.
             nth_error (deps W j) i = Some (DJob k) -> st (jobs s k) = DONE).
   { intros i k _ X Y. rewrite C, (NTH _ _ Y) in X. inversion X. apply dep_status_ok; auto. }
   assert (CF : forall i, started (pc r') = true -> nth_error (cur r') i = Some DFAIL ->
-            exists k, nth_error (deps W j) i = Some (DJob k) /\ st (jobs s k) = ERROR).
+            exists k, nth_error (deps W j) i = Some (DJob k) /\ (st (jobs s k) = ERROR \/ adopted W k <> None)).
   { intros i _ X. rewrite C in X. unfold news in X. rewrite nth_error_map in X.
     destruct (nth_error (deps W j) i) as [d|] eqn:Y; simpl in X; [|discriminate]. inversion X as [X'].
     destruct (dep_status_fail _ _ X') as (k & -> & K). exists k; auto. }
   assert (RD : (st r' = READY \/ in_start (pc r') = true) -> forall k, In (DJob k) (deps W j) -> st (jobs s k) = DONE).
   { intros X k Hk. assert (R : st r' = READY) by (destruct X; auto).
     apply In_nth_error in Hk. destruct Hk as (i & Hi). apply dep_status_ok. eapply RDY; eauto. }
-  assert (FD : fdep r' = true -> exists k, In (DJob k) (deps W j) /\ st (jobs s k) = ERROR).
+  assert (FD : fdep r' = true -> exists k, In (DJob k) (deps W j) /\ (st (jobs s k) = ERROR \/ adopted W k <> None)).
   { intros X. destruct (FDP X) as (i & Hi). unfold news in Hi. rewrite nth_error_map in Hi.
     destruct (nth_error (deps W j) i) as [d|] eqn:Y; simpl in Hi; [|discriminate]. inversion Hi as [X'].
     destruct (dep_status_fail _ _ X') as (k & -> & K). exists k. split; auto. eapply nth_error_In; eauto. }
@@ -401,7 +405,7 @@ Proof.
   { intros c Hc. left. unfold s', commit in Hc. destruct (snd p); simpl in Hc; auto. }
   assert (RET : forall r0, pc r = PReturned r0 -> pc r' = PReturned r0) by (intros r0 X; rewrite P in X; discriminate).
   assert (LCH : launches r' = launches r \/ (true = false /\ launches r' = Datatypes.S (launches r) /\ pc r = PWoken ALockIn)) by (left; congruence).
-  exact (@inv_update true W s s' j r' WF I Jn EJ LI SD SE SS SP RET LCH SW SUB CO CF RD FD LD CNT FL Q).
+  exact (@inv_update true W s s' j r' WF I Jn EJ LI SD (fun HE => or_introl (SE HE)) SS SP RET LCH SW SUB CO CF RD FD LD CNT FL Q).
 Qed.
 
 Lemma release_all_jobs : forall W s j, jobs (release_all W s j) = upd (jobs s) j (w_held (jobs s j) []).
@@ -413,7 +417,7 @@ Proof.
   intros W s j WF I S. set (r := jobs s j) in *.
   set (r' := w_held r []). set (s' := release_all W s j).
   assert (EJ : jobs s' = upd (jobs s) j r') by reflexivity.
-  assert (L : linv (deps W j) (j_marker (spec W j)) (j_code (spec W j)) r') by (apply linv_release; auto; apply (I_loc I j)).
+  assert (L : linv (deps W j) (j_marker (spec W j)) (j_code (spec W j)) (adopted W j) r') by (apply linv_release; auto; apply (I_loc I j)).
   assert (EC : cur r' = cur r) by reflexivity.
   assert (EF : fdep r' = fdep r) by reflexivity.
   assert (SD : st r = DONE -> st r' = DONE) by auto.
@@ -434,7 +438,7 @@ Proof.
     unfold upd. destruct (Nat.eqb (fst q) j) eqn:E; auto; apply Nat.eqb_eq in E; rewrite E in X; exact X. }
   assert (RET : forall r0, pc r = PReturned r0 -> pc r' = PReturned r0) by (auto).
   assert (LCH : launches r' = launches r \/ (true = false /\ launches r' = Datatypes.S (launches r) /\ pc r = PWoken ALockIn)) by (left; reflexivity).
-  exact (@inv_update_own true W s s' j r' WF I S EJ L EC EF SD SE SS SP RET LCH RD LD CNT FL Q).
+  exact (@inv_update_own true W s s' j r' WF I S EJ L EC EF SD (fun HE => or_introl (SE HE)) SS SP RET LCH RD LD CNT FL Q).
 Qed.
 
 Lemma inv_abort_return : forall W s j, wf W = true -> Inv W s -> pc (jobs s j) = PWoken ALockOutAbort ->
@@ -449,7 +453,7 @@ Proof.
   assert (P1 : pc r1 = PWoken ALockOutAbort) by (rewrite E1; exact P).
   assert (H1 : held r1 = []) by (rewrite E1; reflexivity).
   pose proof (I_loc I1 j) as L1. unfold jl in L1. fold r1 in L1.
-  destruct (@abort_l_ok _ _ _ r1 L1 P1 H1) as (LI & SH).
+  destruct (@abort_l_ok _ _ _ _ r1 L1 P1 H1) as (LI & SH).
   set (r2 := if uns r1 =? 0 then fst (set_event_l (w_st r1 READY)) else w_st r1 WAITING) in *.
   assert (R2 : cur r2 = cur r1 /\ fdep r2 = fdep r1 /\ launches r2 = launches r1).
   { unfold r2. destruct (uns r1 =? 0); [|auto].
@@ -461,7 +465,7 @@ Proof.
   - rewrite P1; auto.
   - rewrite P1; auto.
   - intros D. pose proof (l_D L1 D) as X. rewrite P1 in X. discriminate.
-  - intros D. destruct (l_EN L1 D) as [X|X]; rewrite P1 in X; discriminate.
+  - intros D. destruct (l_EN L1 D) as [X|[X|X]]; rewrite P1 in X; discriminate.
   - intros _. right. rewrite P1. auto.
 Qed.
 
@@ -477,15 +481,38 @@ Proof.
   assert (P1 : pc r1 = PWoken AProc) by (rewrite E1; exact P).
   assert (H1 : held r1 = []) by (rewrite E1; reflexivity).
   pose proof (I_loc I1 j) as L1. unfold jl in L1. fold r1 in L1.
-  destruct (@proc_l_ok _ _ _ r1 L1 P1 H1) as (LI & SH & _).
+  destruct (@proc_l_ok _ _ _ _ r1 L1 P1 H1) as (LI & SH & _).
   cut (Inv W (commit s1 j (proc_l (j_code (spec W j)) r1)) /\ stab0 s1 (commit s1 j (proc_l (j_code (spec W j)) r1))).
   { intros (X & Y). split; auto. eapply stab0_trans; eauto. }
   apply (@inv_commit_loop W s1 j (w_st r1 (code_state (j_code (spec W j)))) (proc_l (j_code (spec W j)) r1)); auto; fold r1.
   - rewrite P1; auto.
   - rewrite P1; auto.
   - intros D. pose proof (l_D L1 D) as X. rewrite P1 in X. discriminate.
-  - intros D. destruct (l_EN L1 D) as [X|X]; rewrite P1 in X; discriminate.
+  - intros D. destruct (l_EN L1 D) as [X|[X|X]]; rewrite P1 in X; discriminate.
   - intros _. right. rewrite P1. auto.
+Qed.
+
+Lemma adopt_state_finished : forall a, finished (adopt_state a) = true.
+Proof. intros [[[|p|p]|] [|]]; reflexivity. Qed.
+
+(* the process left by an earlier run has ended *)
+Lemma inv_adopt_return : forall W s j, wf W = true -> Inv W s -> pc (jobs s j) = PWoken AAdopt ->
+  Inv W (adopt_return W s j) /\ stab0 s (adopt_return W s j).
+Proof.
+  intros W s j WF I P. unfold adopt_return. set (r := jobs s j) in *.
+  pose proof (I_loc I j) as L. unfold jl in L. fold r in L.
+  destruct (adopted W j) as [v|] eqn:AD.
+  2:{ exfalso. apply (l_adpc L); [rewrite P; reflexivity|reflexivity]. }
+  assert (FV : finished v = true).
+  { unfold adopted in AD. destruct (j_adopt (spec W j)); inversion AD. apply adopt_state_finished. }
+  destruct (@adopt_l_ok _ _ _ v r L P FV) as (LI & SH & _).
+  apply (@inv_commit_loop W s j (w_st r v) (adopt_l v r)); auto; fold r.
+  - rewrite P; auto.
+  - rewrite P; auto.
+  - rewrite AD. exact LI.
+  - intros D. pose proof (l_D L D) as X. rewrite P in X. discriminate.
+  - intros _. right. rewrite P. reflexivity.
+  - simpl. intros X. rewrite X in FV. discriminate.
 Qed.
 
 Lemma inv_done_return : forall W s j, wf W = true -> Inv W s -> pc (jobs s j) = PWoken ADoneH ->
@@ -497,7 +524,7 @@ Proof.
   assert (JS : forall s0, jobs (notify_exit s0) = jobs s0) by (intros s0; unfold notify_exit; destruct (wst s0); reflexivity).
   assert (EJ : jobs s' = upd (jobs s) j r').
   { unfold s', done_return. simpl. rewrite JS. reflexivity. }
-  assert (L : linv (deps W j) (j_marker (spec W j)) (j_code (spec W j)) r') by (apply linv_returned; auto; apply (I_loc I j)).
+  assert (L : linv (deps W j) (j_marker (spec W j)) (j_code (spec W j)) (adopted W j) r') by (apply linv_returned; auto; apply (I_loc I j)).
   assert (EC : cur r' = cur r) by reflexivity.
   assert (EF : fdep r' = fdep r) by reflexivity.
   assert (SD : st r = DONE -> st r' = DONE) by auto.
@@ -523,7 +550,7 @@ Proof.
       rewrite JS in X. simpl in X. change (started (pc (jobs s' (fst q))) = true). rewrite EJ. unfold upd. destruct (Nat.eqb (fst q) j); auto. }
   assert (RET : forall r0, pc r = PReturned r0 -> pc r' = PReturned r0) by (intros r0 X; rewrite P in X; discriminate).
   assert (LCH : launches r' = launches r \/ (true = false /\ launches r' = Datatypes.S (launches r) /\ pc r = PWoken ALockIn)) by (left; reflexivity).
-  exact (@inv_update_own true W s s' j r' WF I S EJ L EC EF SD SE SS SP RET LCH RD LD CNT FL Q).
+  exact (@inv_update_own true W s s' j r' WF I S EJ L EC EF SD (fun HE => or_introl (SE HE)) SS SP RET LCH RD LD CNT FL Q).
 Qed.
 
 Lemma check_pc : forall W s j i, pc (jobs s j) <> PAwaitReady ->
@@ -543,7 +570,7 @@ Proof.
   assert (S : started (pc r) = true) by (rewrite P; auto).
   set (ra := w_held r hd). set (s1 := s_avail (setjob s j ra) av).
   assert (EJ : jobs s1 = upd (jobs s) j ra) by reflexivity.
-  assert (L : linv (deps W j) (j_marker (spec W j)) (j_code (spec W j)) ra) by (apply linv_held; auto).
+  assert (L : linv (deps W j) (j_marker (spec W j)) (j_code (spec W j)) (adopted W j) ra) by (apply linv_held; auto).
   assert (EC : cur ra = cur r) by reflexivity.
   assert (EF : fdep ra = fdep r) by reflexivity.
   assert (SD : st r = DONE -> st ra = DONE) by auto.
@@ -560,7 +587,7 @@ Proof.
   assert (Q : forall c, In c (queue s1) -> In c (queue s) \/ cb_ok s1 c) by (intros c Hc; auto).
   assert (RET : forall r0, pc r = PReturned r0 -> pc ra = PReturned r0) by auto.
   assert (LCH : launches ra = launches r \/ (true = false /\ launches ra = Datatypes.S (launches r) /\ pc r = PWoken ALockIn)) by (left; reflexivity).
-  exact (proj1 (@inv_update_own true W s s1 j ra WF I S EJ L EC EF SD SE SS SP RET LCH RD LD CNT FL Q)).
+  exact (proj1 (@inv_update_own true W s s1 j ra WF I S EJ L EC EF SD (fun HE => or_introl (SE HE)) SS SP RET LCH RD LD CNT FL Q)).
 Qed.
 
 Lemma inv_start_body : forall W s j, wf W = true -> Inv W s -> pc (jobs s j) = PWoken ALockIn ->
@@ -575,7 +602,7 @@ Proof.
     set (ra := w_held r hd). set (s1 := s_avail (setjob s j ra) av).
     assert (I1x : Inv W s1 /\ stab0 s s1).
     { assert (EJ : jobs s1 = upd (jobs s) j ra) by reflexivity.
-      assert (L : linv (deps W j) (j_marker (spec W j)) (j_code (spec W j)) ra) by (apply linv_held; auto).
+      assert (L : linv (deps W j) (j_marker (spec W j)) (j_code (spec W j)) (adopted W j) ra) by (apply linv_held; auto).
       assert (EC : cur ra = cur r) by reflexivity.
       assert (EF : fdep ra = fdep r) by reflexivity.
       assert (SD : st r = DONE -> st ra = DONE) by auto.
@@ -592,7 +619,7 @@ Proof.
       assert (Q : forall c, In c (queue s1) -> In c (queue s) \/ cb_ok s1 c) by (intros c Hc; auto).
       assert (RET : forall r0, pc r = PReturned r0 -> pc ra = PReturned r0) by auto.
       assert (LCH : launches ra = launches r \/ (true = false /\ launches ra = Datatypes.S (launches r) /\ pc r = PWoken ALockIn)) by (left; reflexivity).
-      exact (@inv_update_own true W s s1 j ra WF I S EJ L EC EF SD SE SS SP RET LCH RD LD CNT FL Q). }
+      exact (@inv_update_own true W s s1 j ra WF I S EJ L EC EF SD (fun HE => or_introl (SE HE)) SS SP RET LCH RD LD CNT FL Q). }
     destruct I1x as (I1 & ST1).
     assert (P1 : pc (jobs s1 j) = PWoken ALockIn) by (simpl; rewrite upd_same; exact P).
     assert (S1 : started (pc (jobs s1 j)) = true) by (rewrite P1; auto).
@@ -603,7 +630,7 @@ Proof.
     set (r' := w_pc r2 (PExt ALockOutAbort)). set (s' := setjob s2 j r').
     assert (S2 : started (pc r2) = true) by (rewrite P2; auto).
     assert (EJ : jobs s' = upd (jobs s2) j r') by reflexivity.
-    assert (L : linv (deps W j) (j_marker (spec W j)) (j_code (spec W j)) r') by (apply linv_toabort; auto; apply (I_loc I2 j)).
+    assert (L : linv (deps W j) (j_marker (spec W j)) (j_code (spec W j)) (adopted W j) r') by (apply linv_toabort; auto; apply (I_loc I2 j)).
     assert (EC : cur r' = cur r2) by reflexivity.
     assert (EF : fdep r' = fdep r2) by reflexivity.
     assert (SD : st r2 = DONE -> st r' = DONE) by auto.
@@ -621,13 +648,13 @@ Proof.
     assert (Q : forall c, In c (queue s') -> In c (queue s2) \/ cb_ok s' c) by (intros c Hc; auto).
     assert (RET : forall r0, pc r2 = PReturned r0 -> pc r' = PReturned r0) by (intros r0 X; rewrite P2 in X; discriminate).
     assert (LCH : launches r' = launches r2 \/ (true = false /\ launches r' = Datatypes.S (launches r2) /\ pc r2 = PWoken ALockIn)) by (left; reflexivity).
-    destruct (@inv_update_own true W s2 s' j r' WF I2 S2 EJ L EC EF SD SE SS SP RET LCH RD LD CNT FL Q) as (I3 & ST3).
+    destruct (@inv_update_own true W s2 s' j r' WF I2 S2 EJ L EC EF SD (fun HE => or_introl (SE HE)) SS SP RET LCH RD LD CNT FL Q) as (I3 & ST3).
     split; auto. apply stab0_stab. eapply stab0_trans; [|exact ST3]. eapply stab0_trans; eauto.
   - (* launch *)
     set (r' := w_pc (w_st (w_launches (w_held r hd) (Datatypes.S (launches (w_held r hd)))) RUNNING) (PExt ALockOutRun)).
     set (s' := s_avail (setjob s j r') av).
     assert (EJ : jobs s' = upd (jobs s) j r') by reflexivity.
-    assert (L : linv (deps W j) (j_marker (spec W j)) (j_code (spec W j)) r') by (apply linv_launch; auto).
+    assert (L : linv (deps W j) (j_marker (spec W j)) (j_code (spec W j)) (adopted W j) r') by (apply linv_launch; auto).
     assert (EC : cur r' = cur r) by reflexivity.
     assert (EF : fdep r' = fdep r) by reflexivity.
     assert (SD : st r = DONE -> st r' = DONE) by (intros; contradiction).
@@ -646,7 +673,7 @@ Proof.
     assert (Q : forall c, In c (queue s') -> In c (queue s) \/ cb_ok s' c) by (intros c Hc; auto).
     assert (RET : forall r0, pc r = PReturned r0 -> pc r' = PReturned r0) by (intros r0 X; rewrite P in X; discriminate).
   assert (LCH : launches r' = launches r \/ (false = false /\ launches r' = Datatypes.S (launches r) /\ pc r = PWoken ALockIn)) by (right; repeat split; auto).
-    exact (@inv_update_own false W s s' j r' WF I S EJ L EC EF SD SE SS SP RET LCH RD LD CNT FL Q).
+    exact (@inv_update_own false W s s' j r' WF I S EJ L EC EF SD (fun HE => or_introl (SE HE)) SS SP RET LCH RD LD CNT FL Q).
 Qed.
 
 Lemma inv_submit_pc : forall W s s' j p',
@@ -664,7 +691,7 @@ Proof.
   assert (NS : started (pc r) = false) by (rewrite P; auto).
   destruct (l_un L0 NS) as (Ul & Uh & Us & Uf & Uc & Uu).
   assert (NS' : started p' = false) by (destruct HP as [->|(k & ->)]; auto).
-  assert (L : linv (deps W j) (j_marker (spec W j)) (j_code (spec W j)) r').
+  assert (L : linv (deps W j) (j_marker (spec W j)) (j_code (spec W j)) (adopted W j) r').
   { destruct HP as [->|(k & ->)]; [apply linv_spawned|apply linv_dup]; auto. }
   assert (SD : st r = DONE -> st r' = DONE) by auto.
   assert (SE : st r = ERROR -> st r' = ERROR) by auto.
@@ -677,11 +704,11 @@ Proof.
             nth_error (deps W j) i = Some (DJob k) -> st (jobs s k) = DONE).
   { simpl. rewrite NS'. discriminate. }
   assert (CF : forall i, started (pc r') = true -> nth_error (cur r') i = Some DFAIL ->
-            exists k, nth_error (deps W j) i = Some (DJob k) /\ st (jobs s k) = ERROR).
+            exists k, nth_error (deps W j) i = Some (DJob k) /\ (st (jobs s k) = ERROR \/ adopted W k <> None)).
   { simpl. rewrite NS'. discriminate. }
   assert (RD : (st r' = READY \/ in_start (pc r') = true) -> forall k, In (DJob k) (deps W j) -> st (jobs s k) = DONE).
   { simpl. intros [X|X]; [congruence|]. destruct HP as [->|(k & ->)]; discriminate. }
-  assert (FD : fdep r' = true -> exists k, In (DJob k) (deps W j) /\ st (jobs s k) = ERROR) by (simpl; congruence).
+  assert (FD : fdep r' = true -> exists k, In (DJob k) (deps W j) /\ (st (jobs s k) = ERROR \/ adopted W k <> None)) by (simpl; congruence).
   assert (LD : launches r' = 1%nat -> forall k, In (DJob k) (deps W j) -> st (jobs s k) = DONE) by (simpl; congruence).
   assert (CNT : unfinished s' - unfinished s = (if counted (pc r') then 1 else 0) - (if counted (pc r) then 1 else 0)).
   { rewrite EU, P. simpl. clear. destruct (counted p'); lia. }
@@ -693,7 +720,7 @@ Proof.
   { intros c Hc. destruct (EQ c Hc) as [X| ->]; auto. right. simpl. auto. }
   assert (RET : forall r0, pc r = PReturned r0 -> pc r' = PReturned r0) by (intros r0 X; rewrite P in X; discriminate).
   assert (LCH : launches r' = launches r \/ (true = false /\ launches r' = Datatypes.S (launches r) /\ pc r = PWoken ALockIn)) by (left; reflexivity).
-  exact (@inv_update true W s s' j r' WF I Jn EJ L SD SE SS SP RET LCH SW SUB CO CF RD FD LD CNT FL Q).
+  exact (@inv_update true W s s' j r' WF I Jn EJ L SD (fun HE => or_introl (SE HE)) SS SP RET LCH SW SUB CO CF RD FD LD CNT FL Q).
 Qed.
 
 Lemma inv_submit : forall W s j, wf W = true -> Inv W s -> (j < njobs W)%nat -> pc (jobs s j) = PNot ->
@@ -749,6 +776,7 @@ Proof.
       * apply Z, inv_lockoutrun; auto.
       * apply Z, inv_proc_return; auto.
       * apply Z, inv_done_return; auto.
+      * apply Z, inv_adopt_return; auto.
   - apply Z, inv_check; auto.
   - destruct (nth_error (deps W j) i) as [[k|t c]|]; auto.
     destruct (0 <? avail s t)%nat; auto. apply Z, inv_check; auto.
